@@ -100,6 +100,21 @@ let run_case (b : Buffer.t) (c : case) : unit =
   (match c.routine with
    | "potrf" ->
        let v = mat_of (find_mat c "A") in
+       if c.form >= 100 then begin
+         (* iterator-level potrf(uplo, first, last) on the leading sub-range [begin, begin + k) of a row-major view
+            (potrf.hpp:21-35): LAPACK's order is the LENGTH OF THE RANGE, the matrix starts at first.base() with lda = stride(first) *)
+         let k = c.form - 100 in
+         let first = m_begin v in
+         let last = it_plus first (z k) in
+         if not (potrf_it_asrt first last) || k < 0 || k > i v.m_n0 || i v.m_n0 <> i v.m_n1 then Printf.bprintf b "D %s out-of-domain\n" id
+         else begin
+           let pc = potrf_it_call c.uplo first last in
+           Printf.bprintf b "L %s dpotrf uplo=%c n=%d a=A+%d lda=%d legal=%d\n" id (fch pc.pc_uplo) (i pc.pc_n)
+             (i pc.pc_a) (i pc.pc_lda) (b01 (potrf_legal pc));
+           let info = match c.kind with Minor m when m <= k -> m | _ -> 0 in
+           Printf.bprintf b "I %s info=%d\n" id info;
+           Printf.bprintf b "R %s ret=%d\n" id (i (it_distance first (potrf_it_ret first last (z info))))
+         end end else
        if not (potrf_dom v) then Printf.bprintf b "D %s out-of-domain\n" id
        else begin
          let pc = potrf_call_of c.uplo v in
@@ -194,7 +209,9 @@ let gen_case (maxn : int) (with_syev : bool) (id : string) : case * string list 
       let n = if chance 4 then 0 else gen_size maxn in
       let a, tag = gen_block "A" n n true in
       let kind = if n > 0 && chance 40 then Minor (rnd_range 1 n) else Spd in
-      ({ id; routine; form = 2; mats = [ a ]; vecs = []; uplo; kind; vseed },
+      let form = if n > 0 && not a.t && a.is = 1 && chance 25 then 100 + rnd_range 0 n else 2 in
+      ({ id; routine; form; mats = [ a ]; vecs = []; uplo; kind; vseed },
+       (if form >= 100 then [ "potrf-iterator-range"; (if form - 100 < n then "potrf-proper-subrange" else "potrf-whole-range") ] else []) @
        [ "potrf"; "potrf-" ^ tag; "potrf-" ^ (match uplo with Upper -> "upper" | Lower -> "lower");
          (match kind with Minor _ -> "potrf-minor" | _ -> "potrf-spd"); Printf.sprintf "n=%d" n ])
   | "geqrf" when chance 2 ->
